@@ -848,6 +848,11 @@ impl<'a> Interp<'a> {
         })
     }
 
+    /// Steps the reference interpreter took (statements, expressions, loop iterations).
+    pub fn steps_used(&self) -> u64 {
+        400_000 - self.step_budget
+    }
+
     pub fn new_nodes(&self) -> usize {
         self.graph.nodes.len() - self.base_nodes
     }
